@@ -53,6 +53,9 @@ type c07Prof struct {
 	// name and start line in ANOTHER FILE (locations 11 and the inlined line of 9), same name and
 	// file with another start line (location 8), same name with another system name (caller line of 10).
 	Hom int `json:"hom,omitempty"`
+	// header patterns every legacy heap/cpu/contention profile carries: frames to drop / to keep
+	Drop string `json:"drop_frames,omitempty"`
+	Keep string `json:"keep_frames,omitempty"`
 }
 
 // c07Case is the self-contained replay form of one case.
@@ -228,7 +231,7 @@ func c07ID(scheme, k, n, shift int) uint64 {
 // c07Build makes a real profile from the abstract one. shift permutes the ids so that merging
 // has to match entities semantically.
 func c07Build(a *c07Prof, shift int) *profile.Profile {
-	p := &profile.Profile{PeriodType: &profile.ValueType{Type: "cpu", Unit: "nanoseconds"}, Period: 1}
+	p := &profile.Profile{PeriodType: &profile.ValueType{Type: "cpu", Unit: "nanoseconds"}, Period: 1, DropFrames: a.Drop, KeepFrames: a.Keep}
 	for _, t := range a.Types {
 		p.SampleType = append(p.SampleType, &profile.ValueType{Type: t.Type, Unit: t.Unit})
 	}
@@ -446,7 +449,7 @@ func runC07(c *Ctx) {
 	c.Res.Rule = "CLI stream: tuples of 1-3 source and 0-2 base profiles over a shared universe of 12 locations/8 functions with overlapping stacks, " +
 		"permuted/partially overlapping sample types, units drawn per profile from one family (bytes..gb, ns..s, count), zeros in columns, |physical value| <= 2^46; " +
 		"modes plain/-base/-diff_base x -normalize x sample_index; strategies: random, self-difference, self-difference with converted units, zero next to unscaled non-zero; " +
-		"in half of the non-self-difference tuples the profiles come from different BUILDS: function/location/mapping ids, function start lines and file names, line numbers, addresses, mapping range/build id/file all differ, only names agree (entries must still combine by name); in 45% they are the SAME binary symbolized differently (same mapping and addresses; function renamed / other line / other file+start line / no symbols at an address); in 30% HOMONYM functions within and across members (same name+system name+start line in another file, same name+file with another start line, same name with another system name, at different addresses; always reported at -files/-filefunctions/-lines); " +
+		"in half of the non-self-difference tuples the profiles come from different BUILDS: function/location/mapping ids, function start lines and file names, line numbers, addresses, mapping range/build id/file all differ, only names agree (entries must still combine by name); in 45% they are the SAME binary symbolized differently (same mapping and addresses; function renamed / other line / other file+start line / no symbols at an address); in 30% HOMONYM functions within and across members (same name+system name+start line in another file, same name+file with another start line, same name with another system name, at different addresses; always reported at -files/-filefunctions/-lines); in 20% all members carry the same drop_frames/keep_frames header with matching leaf-side frames; in 25% members have samples with values but an EMPTY stack (total of a plain report = sum of the totals when no value is negative); " +
 		"independently in 60% the members have different table sizes (only used locations + 0-7 unused), id schemes (dense rotated, sparse/huge unsorted, shifted) and ASLR-shifted mappings; 1-5 sources; reports at functions (68%), lines, files or addresses granularity; " +
 		"separate streams: large (|v|>2^53) and normalize-unaligned; many-sources stream (in-process driver.PProf, own FlagSet): source and base LISTS of k*128+{-2..2} tiny profiles (k=1..3), same oracles. In-process streams: ScaleN (integer/dyadic/zero ratios), Scale(-1) float path, Normalize, CompatibilizeSampleTypes, ScaleProfiles. " +
 		"non-trivial = CLI case with >=2 profiles where at least two profiles share a stack, or in-process case with >=1 sample and a ratio != 1 / a reordering / a unit change; distinct by case JSON"
